@@ -394,6 +394,9 @@ struct Cfg {
     p: u128,
     s: u128,
     b: u128,
+    /// asset kinds in the pool's own order: true = native coin, false = cw20 token (`k0=` / `k1=` on the init
+    /// line; the model does not look at kinds: a pool must behave the same whatever its assets are)
+    k: [bool; 2],
 }
 
 struct Pool {
@@ -401,7 +404,9 @@ struct Pool {
     pair: Addr,
     lp: Addr,
     cfg: Cfg,
+    tokens: [Option<Addr>; 2],
 }
+const DEN: [&str; 2] = ["ua", "ub"];
 
 fn nat(d: &str) -> AssetInfo {
     AssetInfo::NativeToken { denom: d.into() }
@@ -434,12 +439,39 @@ impl Pool {
             terraswap_token::contract::query,
         )));
         let admin = Addr::unchecked("admin");
+        let mut tokens: [Option<Addr>; 2] = [None, None];
+        let bals = [bal_a, bal_b];
+        for k in 0..2 {
+            if !cfg.k[k] {
+                let t = app
+                    .instantiate_contract(
+                        token_id,
+                        admin.clone(),
+                        &white_whale_std::pool_network::token::InstantiateMsg {
+                            name: format!("token{k}"),
+                            symbol: format!("TOK{}", ["A", "B"][k]),
+                            decimals: if k == 0 { cfg.d0 } else { cfg.d1 },
+                            initial_balances: (0..3).map(|i| cw20::Cw20Coin { address: user(i).to_string(), amount: bals[k].into() }).collect(),
+                            mint: None,
+                        },
+                        &[],
+                        format!("token{k}"),
+                        None,
+                    )
+                    .ok()?;
+                tokens[k] = Some(t);
+            }
+        }
+        let ai = |k: usize| match &tokens[k] {
+            Some(t) => AssetInfo::Token { contract_addr: t.to_string() },
+            None => nat(DEN[k]),
+        };
         let pair = app
             .instantiate_contract(
                 pair_id,
                 admin,
                 &p::InstantiateMsg {
-                    asset_infos: [nat("ua"), nat("ub")],
+                    asset_infos: [ai(0), ai(1)],
                     token_code_id: token_id,
                     asset_decimals: [cfg.d0, cfg.d1],
                     pool_fees: pool_fee(cfg.p, cfg.s, cfg.b),
@@ -457,7 +489,38 @@ impl Pool {
             AssetInfo::Token { contract_addr } => Addr::unchecked(contract_addr),
             _ => return None,
         };
-        Some(Pool { app, pair, lp, cfg })
+        // every user lets the pair pull its cw20 tokens (what a frontend does before ProvideLiquidity)
+        for k in 0..2 {
+            if let Some(t) = &tokens[k] {
+                for i in 0..3 {
+                    app.execute_contract(
+                        user(i),
+                        t.clone(),
+                        &cw20::Cw20ExecuteMsg::IncreaseAllowance { spender: pair.to_string(), amount: Uint128::MAX, expires: None },
+                        &[],
+                    )
+                    .ok()?;
+                }
+            }
+        }
+        Some(Pool { app, pair, lp, cfg, tokens })
+    }
+
+    fn ai(&self, k: usize) -> AssetInfo {
+        match &self.tokens[k] {
+            Some(t) => AssetInfo::Token { contract_addr: t.to_string() },
+            None => nat(DEN[k]),
+        }
+    }
+    fn asset_bal(&self, who: &Addr, k: usize) -> u128 {
+        match &self.tokens[k] {
+            Some(t) => {
+                let r: cw20::BalanceResponse =
+                    self.app.wrap().query_wasm_smart(t, &cw20::Cw20QueryMsg::Balance { address: who.to_string() }).unwrap();
+                r.balance.u128()
+            }
+            None => self.app.wrap().query_balance(who, DEN[k]).unwrap().amount.u128(),
+        }
     }
 
     fn lp_bal(&self, who: &Addr) -> u128 {
@@ -477,21 +540,17 @@ impl Pool {
             .wrap()
             .query_wasm_smart(&self.pair, &p::QueryMsg::ProtocolFees { asset_id: None, all_time: None })
             .unwrap();
-        let amt = |v: &Vec<Asset>, d: &str| v.iter().find(|a| a.info == nat(d)).map(|a| a.amount.u128()).unwrap_or(0);
+        let amt = |v: &Vec<Asset>, k: usize| v.iter().find(|a| a.info == self.ai(k)).map(|a| a.amount.u128()).unwrap_or(0);
         let mut users = [(0, 0, 0); 3];
         for (i, u) in users.iter_mut().enumerate() {
             let w = user(i);
-            *u = (
-                self.app.wrap().query_balance(&w, "ua").unwrap().amount.u128(),
-                self.app.wrap().query_balance(&w, "ub").unwrap().amount.u128(),
-                self.lp_bal(&w),
-            );
+            *u = (self.asset_bal(&w, 0), self.asset_bal(&w, 1), self.lp_bal(&w));
         }
         Snap {
-            r0: amt(&pool.assets, "ua"),
-            r1: amt(&pool.assets, "ub"),
-            pf0: amt(&fees.fees, "ua"),
-            pf1: amt(&fees.fees, "ub"),
+            r0: amt(&pool.assets, 0),
+            r1: amt(&pool.assets, 1),
+            pf0: amt(&fees.fees, 0),
+            pf1: amt(&fees.fees, 1),
             sup: pool.total_share.u128(),
             lp_pair: self.lp_bal(&self.pair),
             users,
@@ -507,9 +566,8 @@ impl Pool {
     }
 
     fn simulate(&self, dir: u128, off: u128) -> Option<p::SimulationResponse> {
-        let d = if dir == 0 { "ua" } else { "ub" };
         let pair = self.pair.clone();
-        let q = p::QueryMsg::Simulation { offer_asset: Asset { info: nat(d), amount: off.into() } };
+        let q = p::QueryMsg::Simulation { offer_asset: Asset { info: self.ai(if dir == 0 { 0 } else { 1 }), amount: off.into() } };
         match guarded(|| self.app.wrap().query_wasm_smart::<p::SimulationResponse>(&pair, &q)) {
             Outcome::Ok(r) => Some(r),
             _ => None,
@@ -518,6 +576,16 @@ impl Pool {
 
     fn provide(&mut self, u: usize, a: u128, bq: u128) -> Outcome<()> {
         let (pair, who) = (self.pair.clone(), user(u));
+        let (i0, i1) = (self.ai(0), self.ai(1));
+        // native legs travel as funds (a zero coin too, as before: the bank refuses it); cw20 legs are pulled
+        // by the pair with TransferFrom AFTER it has computed the shares
+        let mut funds = vec![];
+        if self.cfg.k[0] {
+            funds.push(coin(a, "ua"));
+        }
+        if self.cfg.k[1] {
+            funds.push(coin(bq, "ub"));
+        }
         let app = &mut self.app;
         guarded(move || {
             app.execute_contract(
@@ -527,21 +595,39 @@ impl Pool {
                     // the order in which the caller lists the assets must not matter: reverse it for a
                     // deterministic half of the deposits
                     assets: if (a ^ bq) & 1 == 1 {
-                        [Asset { info: nat("ub"), amount: bq.into() }, Asset { info: nat("ua"), amount: a.into() }]
+                        [Asset { info: i1, amount: bq.into() }, Asset { info: i0, amount: a.into() }]
                     } else {
-                        [Asset { info: nat("ua"), amount: a.into() }, Asset { info: nat("ub"), amount: bq.into() }]
+                        [Asset { info: i0, amount: a.into() }, Asset { info: i1, amount: bq.into() }]
                     },
                     slippage_tolerance: None,
                     receiver: None,
                 },
-                &[coin(a, "ua"), coin(bq, "ub")],
+                &funds,
             )
             .map(|_| ())
         })
     }
     fn swap(&mut self, u: usize, dir: u128, off: u128) -> Outcome<()> {
         let (pair, who) = (self.pair.clone(), user(u));
-        let d = if dir == 0 { "ua" } else { "ub" };
+        let k = if dir == 0 { 0 } else { 1 };
+        let d = DEN[k];
+        if let Some(t) = self.tokens[k].clone() {
+            // a cw20 offer arrives through the token's Send hook
+            let app = &mut self.app;
+            return guarded(move || {
+                app.execute_contract(
+                    who,
+                    t,
+                    &cw20::Cw20ExecuteMsg::Send {
+                        contract: pair.to_string(),
+                        amount: off.into(),
+                        msg: to_json_binary(&p::Cw20HookMsg::Swap { belief_price: None, max_spread: Some(Decimal::percent(50)), to: None }).unwrap(),
+                    },
+                    &[],
+                )
+                .map(|_| ())
+            });
+        }
         let app = &mut self.app;
         guarded(move || {
             app.execute_contract(
@@ -883,7 +969,17 @@ impl Stable2 {
         if amp > u64::MAX as u128 || d0 > 255 || d1 > 255 {
             return "bad-op".into();
         }
-        let cfg = Cfg { amp: amp as u64, d0: d0 as u8, d1: d1 as u8, p: pp, s, b: bb };
+        // `k0=` / `k1=`: n (native, default) or c (cw20)
+        let kind = |k: &str| match kv.get(k).map(|v| v.as_str()) {
+            None | Some("n") => Some(true),
+            Some("c") => Some(false),
+            _ => None,
+        };
+        let (k0, k1) = match (kind("k0"), kind("k1")) {
+            (Some(a), Some(c)) => (a, c),
+            _ => return "bad-op".into(),
+        };
+        let cfg = Cfg { amp: amp as u64, d0: d0 as u8, d1: d1 as u8, p: pp, s, b: bb, k: [k0, k1] };
         match Pool::new(cfg, ba, bbal) {
             Some(pl) => {
                 self.last = match pl.snap() {
@@ -1143,7 +1239,9 @@ impl Stable2 {
             let amp = Self::gen_amp(rng);
             let (pf, sf, bf) = Self::gen_fees(rng);
             // 2^108 per user and denom: three users stay below 2^110 in total
-            return Some(format!("init stable2 amp={amp} d0={d0} d1={d1} p={pf} s={sf} b={bf} balA={} balB={}", 1u128 << 108, 1u128 << 108));
+            // asset kinds in every combination and ORDER (seed C03-K: a cw20 first and a native second)
+            let (k0, k1) = [("n", "n"), ("c", "n"), ("n", "c"), ("c", "c")][rng.below(4) as usize];
+            return Some(format!("init stable2 amp={amp} d0={d0} d1={d1} p={pf} s={sf} b={bf} balA={} balB={} k0={k0} k1={k1}", 1u128 << 108, 1u128 << 108));
         }
         if step >= self.plan_len {
             return None;
